@@ -77,6 +77,14 @@ BuildF(shape, st, parts, tab) ==
    LET c == StepChecksum(shape, StepRetain(f.parts), tab) IN
    IF ~c.ok THEN c ELSE [ok |-> TRUE, v |-> MkValue(shape, f.st, c.parts)]
 
+\* every class of defect build() would refuse, whatever the order of its steps (C05 / C08 fix a class only for a single defect);
+\* the hook's own edits do not create or hide a name or checksum defect for the built-in shapes
+BuildDefects(shape, st, parts, tab) ==
+   LET f == StepFinish(shape, st, parts, tab)
+       c == StepChecksum(shape, StepRetain(parts), tab)
+   IN (IF f.ok THEN {} ELSE {f.err})
+      \cup (IF parts.name = <<>> THEN {WrapErr(shape, "MissingName")} ELSE {})
+      \cup (IF c.ok THEN {} ELSE {c.err})
 \* C10: into_builder().build()
 Rebuild(shape, v, tab) == BuildF(shape, v.type, PartsOf(v), tab)
 \* validity of a value by shape: the type string is constrained for the built-in shapes only
